@@ -486,3 +486,53 @@ def id_ok(eng, st, v):
         e = enc_uf(eng, V(Interp.field_term(ci, 'header', v.t), CLS('BlockHeader')))
     eng.assumptions_used.add('A-HASH')
     return V(z3.Or(O.is_none(ch), z3.And(O.is_some(ch), O.val(ch) == sha(e))), BOOL)
+
+
+# ---- C17: the merkle commitment as a specification function --------------------------------------------------------------
+#   pair(l, k)   = the first k entries of the next level:  pair(l, 0) = [],
+#                  pair(l, k+1) = pair(l, k) + [H(l[2k] + l[2k+1])]   if 2k+1 < len(l)
+#                               = pair(l, k) + [l[2k]]               if 2k+1 == len(l)          (odd last entry is promoted)
+#   mroot([x])   = x ;   mroot(l) = mroot(pair(l, (len(l)+1)//2))   for len(l) >= 2
+# lean/Merkle.lean proves (free hash algebra) that mroot determines the list.
+
+def _merkle_ufs(eng):
+    from pyvc.types import BYTES_SORT
+    LS = z3.SeqSort(BYTES_SORT)
+    return (eng.uf('mroot', LS, BYTES_SORT), eng.uf('mpair', LS, z3.IntSort(), LS),
+            eng.uf('sha256d', BYTES_SORT, BYTES_SORT))
+
+
+def _mpair_unfold(eng, st, lt, kt):
+    root, pair, sha = _merkle_ufs(eng)
+    if st.bound:
+        return
+    eng.add_func_axiom(pair(lt, z3.IntVal(0)) == z3.Empty(lt.sort()))
+    for k in (kt, z3.simplify(kt - 1)):
+        both = z3.And(k >= 0, 2 * k + 1 < z3.Length(lt))
+        last = z3.And(k >= 0, 2 * k + 1 == z3.Length(lt))
+        eng.add_func_axiom(z3.Implies(both, pair(lt, k + 1) == z3.Concat(pair(lt, k), z3.Unit(sha(z3.Concat(lt[2 * k], lt[2 * k + 1]))))))
+        eng.add_func_axiom(z3.Implies(last, pair(lt, k + 1) == z3.Concat(pair(lt, k), z3.Unit(lt[2 * k]))))
+        eng.add_func_axiom(z3.Implies(z3.And(k >= 0, 2 * k <= z3.Length(lt) + 1), z3.Length(pair(lt, k)) == k))
+    eng.assumptions_used.add('A-HASH')
+
+
+@GH.ghost('mpair')
+def mpair(eng, st, lst, k):
+    lv = eng.lift(lst, st) if not isinstance(lst, V) else lst
+    kt = eng.term(k, INT)
+    _mpair_unfold(eng, st, lv.t, kt)
+    return V(_merkle_ufs(eng)[1](lv.t, kt), LIST(BYTES))
+
+
+@GH.ghost('mroot')
+def mroot(eng, st, lst):
+    lv = eng.lift(lst, st) if not isinstance(lst, V) else lst
+    root, pair, sha = _merkle_ufs(eng)
+    lt = lv.t
+    if not st.bound:
+        n = z3.Length(lt)
+        half = (n + 1) / 2
+        eng.add_func_axiom(z3.Implies(n == 1, root(lt) == lt[0]))
+        eng.add_func_axiom(z3.Implies(n >= 2, root(lt) == root(pair(lt, half))))
+        _mpair_unfold(eng, st, lt, half)
+    return V(root(lt), BYTES)
